@@ -15,6 +15,7 @@ import (
 	"runtime"
 	"strings"
 	"sync"
+	"sync/atomic"
 	"time"
 
 	"github.com/wmnsk/go-pfcp/ie"
@@ -33,6 +34,13 @@ type wedgeCase struct {
 	DeadlineMs int  `json:"deadline_ms"` // heartbeat deadline after the burst
 	URRs       int  `json:"urrs"`        // periodic URRs per session (default 1): timer events per bulk removal = sessions x urrs
 	Burst      int  `json:"burst"`       // instead of tick / re-association: this many BUFFER notifications for one PDR of session 1
+	// with hold_tick and reassoc: the event loop is held in the middle of the bulk removal (the reply to one of its
+	// URR removals is kept back), THEN the tick's query is released - the periodic server hands over its reports
+	// until the report channel is full and waits for the loop - and only then the loop is let go.  Whatever the loop
+	// still has to do in that turn must not need the periodic server.
+	HoldLoop bool `json:"hold_loop"`
+	// burst, then: delete session 1 (which has packets queued) - the loop must get through the deletion
+	DeleteAfterBurst bool `json:"delete_after_burst"`
 }
 
 type wedgeOut struct {
@@ -42,6 +50,9 @@ type wedgeOut struct {
 	Blocked     []string `json:"blocked"` // call sites of goroutines blocked in channel operations when not answered
 	Error       string   `json:"error"`
 	TickConn    string   `json:"tick_conn"` // the simulated socket the tick's query arrived on
+	// hold_loop: reports waiting in the report channel when the loop was let go (= its capacity when the periodic
+	// server was really waiting for the loop)
+	SrLenAtRelease int `json:"sr_len_at_release"`
 }
 
 func blockedSites() []string {
@@ -163,6 +174,10 @@ func wedgeOne(f *fixture, c wedgeCase) wedgeOut {
 		for n := 0; n < c.Burst; n++ {
 			k.InjectBuffer(1, 1, 4 /* BUFF */, []byte{byte(n >> 8), byte(n), 0xaa})
 		}
+		if c.DeleteAfterBurst {
+			f.barrierRT(time.Duration(c.DeadlineMs) * time.Millisecond)
+			send(message.NewSessionDeletionRequest(0, 0, 1, 6000, 0))
+		}
 		t0 := time.Now()
 		out.Answered = f.barrierRT(time.Duration(c.DeadlineMs) * time.Millisecond)
 		out.AnswerMs = time.Since(t0).Milliseconds()
@@ -174,6 +189,9 @@ func wedgeOne(f *fixture, c wedgeCase) wedgeOut {
 
 	release := make(chan struct{})
 	inQuery := make(chan struct{}, 1)
+	releaseLoop := make(chan struct{})
+	loopHeld := make(chan struct{}, 1)
+	var ndel int32
 	if c.HoldTick {
 		// the data plane takes its time over the tick's query: its answer is held back while the simulated socket goes on
 		// serving whatever else arrives on it (the event loop has a socket of its own, so nothing else should)
@@ -185,6 +203,13 @@ func wedgeOne(f *fixture, c wedgeCase) wedgeOut {
 				}
 				out.TickConn = req.Conn
 				return release
+			}
+			if c.HoldLoop && req.Cmd == gtp5gnl.CMD_DEL_URR && atomic.AddInt32(&ndel, 1) == 10 {
+				select {
+				case loopHeld <- struct{}{}:
+				default:
+				}
+				return releaseLoop
 			}
 			return nil
 		}
@@ -201,9 +226,26 @@ func wedgeOne(f *fixture, c wedgeCase) wedgeOut {
 	}
 	if c.Reassoc {
 		send(message.NewAssociationSetupRequest(5000, nodeIE(), ie.NewRecoveryTimeStamp(time.Unix(1000, 0))))
-		time.Sleep(300 * time.Millisecond) // let the bulk removal fill the periodic server's queue
+		if c.HoldLoop && c.HoldTick {
+			select {
+			case <-loopHeld:
+			case <-time.After(5 * time.Second):
+				out.Error = "the bulk removal did not reach its 10th URR removal"
+				close(release)
+				close(releaseLoop)
+				return out
+			}
+			close(release)                     // the tick goes on: reports for the sessions that are still there
+			time.Sleep(300 * time.Millisecond) // ... until the report channel is full and the periodic server waits
+			_, out.SrLenAtRelease, _ = srv.VerifChanLens()
+			close(releaseLoop) // the loop goes on with its turn
+		} else {
+			time.Sleep(300 * time.Millisecond) // let the bulk removal fill the periodic server's queue
+		}
 	}
-	close(release)
+	if !(c.HoldLoop && c.HoldTick && c.Reassoc) {
+		close(release)
+	}
 	t0 := time.Now()
 	out.Answered = f.barrierRT(time.Duration(c.DeadlineMs) * time.Millisecond)
 	out.AnswerMs = time.Since(t0).Milliseconds()
